@@ -195,6 +195,12 @@ func childRestart(cfgPath string) {
 	pb, _ := os.ReadFile(filepath.Join(cfg.Dir, "probes.json"))
 	_ = json.Unmarshal(pb, &ps)
 	wd := wdOf(cfg.Dir, cfg.WDForm)
+	// the restarted process runs two validators (two server blocks); the one under test is provisioned second
+	otherWD := filepath.Join(cfg.Dir, "wd-of-another-validator")
+	_ = os.MkdirAll(otherWD, 0755)
+	if other, oerr := l2.Start(l2.Opts{WorkDir: otherWD, Storage: "disk", SigMode: "verify", Fetch: "actively"}); oerr == nil {
+		defer other.Stop()
+	}
 	chk, err := l2.Start(l2.Opts{WorkDir: wd, Storage: "disk", SigMode: "verify", Fetch: "actively", Strict: true})
 	if err != nil {
 		out.ProvisionErr = err.Error()
@@ -313,7 +319,7 @@ func main() {
 		return
 	}
 	run := report.New("C12", "fault_enumeration")
-	run.Rule("crash run = child process (disk backend, strict CDP, healthy origin in the parent) doing a first load or a refresh, killed with SIGKILL (a) at the k-th hook hit for every k until the run completes without reaching k, (b) right after the j-th write into the staging store for j in {1,2,mid,last-1,last}, (c) thorough: at seeded instants from outside, (d) while the body of the download is arriving (the origin sends half of it, then the child is killed); restart run = fresh child on the crash image with the origin down; scenarios {first load, refresh} x signature {accepted, rejected} x size, each with one of five work_dir forms (plain, name with glob characters and spaces, symbolic link to a directory, trailing slash, dot segment); oracle: verdict vector over probes {first/middle/last entry unique to old, to new, common, never} equals 'not loaded' (all denied), 'complete old' or 'complete new' (new only if the scenario's CRL is acceptable), no crl_*_tmp entry remains after Provision and work_dir holds no name that a run without crash does not leave behind, restart neither fails nor panics; non-trivial = crash pair in which the child really died at the crash point; distinct = scenario + crash point")
+	run.Rule("crash run = child process (disk backend, strict CDP, healthy origin in the parent) doing a first load or a refresh, killed with SIGKILL (a) at the k-th hook hit for every k until the run completes without reaching k, (b) right after the j-th write into the staging store for j in {1,2,mid,last-1,last}, (c) thorough: at seeded instants from outside, (d) while the body of the download is arriving (the origin sends half of it, then the child is killed); restart run = fresh child on the crash image with the origin down, in which another validator with its own work_dir is provisioned first; scenarios {first load, refresh} x signature {accepted, rejected} x size, each with one of five work_dir forms (plain, name with glob characters and spaces, symbolic link to a directory, trailing slash, dot segment); oracle: verdict vector over probes {first/middle/last entry unique to old, to new, common, never} equals 'not loaded' (all denied), 'complete old' or 'complete new' (new only if the scenario's CRL is acceptable), no crl_*_tmp entry remains after Provision and work_dir holds no name that a run without crash does not leave behind, restart neither fails nor panics; non-trivial = crash pair in which the child really died at the crash point; distinct = scenario + crash point")
 	run.Assume("process death only (SIGKILL): nothing is fsynced by the code and a lost page cache cannot be simulated here", "the kill happens inside the hook call, i.e. between the statements around the hook site")
 	scratch, _ := report.Scratch("C12")
 	bin := os.Getenv("VERIF_ENGINE_BIN")
